@@ -954,6 +954,10 @@ def _evaluate_if_future_annotations(cls_dict, previous_frame, v):
 
 
 def convert_field_type_if_possible(the_field):
+    if isinstance(the_field, getattr(types, "UnionType", ())):
+        # "Foo | None" (PEP 604, Foo a Structure class) is a union, not a field: convert it like typing.Union[...]
+        # (returning it unchanged made FieldMeta.__getitem__ recurse forever: Array[Foo | None], AnyOf[Foo | int, ...])
+        return get_typing_lib_info(the_field)
     first_arg = getattr(the_field, "__args__", [0])[0]
     mros = getattr(first_arg, "__mro__", getattr(the_field, "__mro__", []))
     if not type_is_generic(the_field) and (
